@@ -37,7 +37,15 @@ STRAY = [';', '}', '{', ')', '(', '<', '>', ',', '=', '::', '*', '&', '@', '"', 
 HORIZON = 60
 
 
+# a seed whose default / initialiser expressions are themselves corrupted token by token
+EXPR_SEED = ('const gt :: Pose kOrigin = gt::Pose ( 0 , 0 , 0 ) ; '
+             'class A { double x = ( 1.5 + 2 ) * 4 ; A ( ) ; void f ( int a = g ( 1 , h [ 2 ] ) , string s = "x)y" , gt :: V v = { 1 , 2 } ) ; } ; '
+             'namespace n { const int kN = A::size ( ) ; }')
+
+
 def seed_tokens(name):
+    if name == 'default-expressions':
+        return EXPR_SEED.split()
     mods = dict(c12.seeds(), **c12.SMALL)
     if name in mods:
         return c12.atomic_tokens(mods[name])
@@ -283,12 +291,19 @@ def check_case(case):
     except BaseException as e:
         tree = None
         status = 'rejected:' + type(e).__name__
+    if tree is not None and case.get('parser_must_reject'):
+        add('C07|validation-error-not-raised|parser|%s' % label[0],
+            'Module.parseString accepted an input that violates a declared rule of the dialect (%s)' % label[0])
     if tree is not None:
         want = pieces(toks)
         try:
             got = pieces(tree_tokens(tree))
         except Exception as e:
             got = ['<unrenderable tree: %s>' % e]
+        for dflt in default_texts(tree):
+            if not balanced(dflt):
+                add('C07|accepted-with-unbalanced-default-expression|%s' % label[0].split(':')[0],
+                    'input accepted although the default/initialiser expression %r is unbalanced' % dflt)
         if want != got:
             missing = list_diff(want, got)
             extra = list_diff(got, want)
@@ -321,6 +336,39 @@ def check_case(case):
         finally:
             shutil.rmtree(wd, ignore_errors=True)
     return {'viol': viol, 'status': status, 'nruns': nruns}
+
+
+def default_texts(tree):
+    out = []
+
+    def rec(x):
+        if isinstance(x, dict):
+            if x.get('d') is not None and isinstance(x.get('d'), str):
+                out.append(x['d'])
+            for v in x.values():
+                rec(v)
+        elif isinstance(x, list):
+            for v in x:
+                rec(v)
+    rec(tree)
+    return out
+
+
+def balanced(text):
+    """Brackets of a default-value expression pair up (quoted strings and char literals skipped)."""
+    import re as _re
+    t = _re.sub(r'"(?:[^"\\\\]|\\\\.)*"|\'(?:[^\'\\\\]|\\\\.)*\'', '', text)
+    stack = []
+    pairs = {')': '(', ']': '[', '}': '{'}
+    for ch in t:
+        if ch in '([{':
+            stack.append(ch)
+        elif ch in ')]}':
+            if not stack or stack.pop() != pairs[ch]:
+                return False
+    if '"' in t or "'" in t:
+        return True     # a stray quote: where the string ends is not decidable here, no verdict
+    return not stack
 
 
 def typename_context(toks, g):
@@ -403,6 +451,8 @@ def subprocess_case(case):
 # validation-error inputs (accepted by the grammar's shape, rejected by node constructors / generators)
 VALIDATION = {
     'ctor-name-mismatch': 'class A { B ( ) ; } ;',
+    'ctor-name-mismatch-second-of-two': 'class Pose { Pose ( ) ; Pos ( double x , double y ) ; } ;',
+    'ctor-name-mismatch-first-of-three': 'class Pose { Pse ( int a ) ; Pose ( ) ; Pose ( double x ) ; } ;',
     'binary-operator-two-args': 'class A { A operator + ( const A & a , const A & b ) const ; } ;',
     'unary-operator-not-plus-minus': 'class A { A operator * ( ) const ; } ;',
     'operator-mixed-types': 'class A { A operator + ( const B & b ) const ; } ;',
@@ -437,7 +487,7 @@ def replay(case):
 
 
 def run(ctx):
-    names = ['tiny-class', 'tiny-func', 'class', 'templates', 'mixed', 'inherit']
+    names = ['tiny-class', 'tiny-func', 'default-expressions', 'class', 'templates', 'mixed', 'inherit']
     stray = STRAY if ctx.thorough else STRAY[:12]
     cases = []
     for name in names:
@@ -461,7 +511,8 @@ def run(ctx):
         fx = os.path.join(os.environ.get('VERIF_REPO', '/repo'), 'tests', 'fixtures')
     for vname, text in VALIDATION.items():
         cases.append({'seed': 'validation', 'label': [vname, 0], 'toks': text.split(), 'drivers': DRIVERS,
-                      'matlab_must_reject': vname.startswith('non-trailing-default')})
+                      'matlab_must_reject': vname.startswith('non-trailing-default'),
+                      'parser_must_reject': not vname.startswith('non-trailing-default')})
     res = ctx.map(check_case, cases)
     rejected = [c for c, r in res if str(r.get('status', '')).startswith('rejected')]
     accepted = sum(1 for c, r in res if r.get('status') == 'accepted')
